@@ -1482,6 +1482,33 @@ def _norm_simple(stmts, ctx):
                     changed = True
                     i += 1
                     continue
+                # one use in each arm of a conditional expression with a total test: same thing, as an expression
+                if not any(_count_loads(s_, v) for s_ in later) and uses_next == 2 and not stores_next \
+                        and not isinstance(nxt, (ast.For, ast.While, ast.If, ast.Try, ast.With) + FuncTypes) \
+                        and ctx.get("root") is not None \
+                        and sum(1 for n in ast.walk(ctx["root"]) if isinstance(n, ast.Name) and n.id == v) == 3:
+                    arms_ok = False
+                    for ie in [n for n in ast.walk(nxt) if isinstance(n, ast.IfExp)]:
+                        if _count_loads(ie.body, v) == 1 and _count_loads(ie.orelse, v) == 1 and _total_atom(ie.test):
+                            variants = []
+                            for pick in ("body", "orelse"):
+                                cp_ = copy.deepcopy(nxt)
+                                for m_ in ast.walk(cp_):
+                                    for fld_, val_ in ast.iter_fields(m_):
+                                        if isinstance(val_, ast.IfExp) and ast.dump(val_) == ast.dump(ie):
+                                            setattr(m_, fld_, getattr(val_, pick))
+                                        elif isinstance(val_, list):
+                                            for k_, x_ in enumerate(val_):
+                                                if isinstance(x_, ast.IfExp) and ast.dump(x_) == ast.dump(ie):
+                                                    val_[k_] = getattr(x_, pick)
+                                variants.append(cp_)
+                            arms_ok = all(_count_loads(c_, v) == 1 and _loaded_first(c_, v) for c_ in variants)
+                            break
+                    if arms_ok:
+                        stmts[i + 1] = _Subst({v: st.value}).visit(nxt)
+                        changed = True
+                        i += 1
+                        continue
                 # a value that cannot raise, has no effect and reads only locals (x is None tests, literals, displays,
                 # conditional expressions of those) may be computed anywhere before its single use
                 if uses_next == 0 and not stores_next and _movable_value(st.value) and ctx.get("root") is not None \
